@@ -49,18 +49,21 @@ class KeySys(HSystem):
         self.a = a
         bl = H.blocklen(a)
         self.bufkeys = [ramp(20, 3, 1), expander(20, 5)]
+        self.lbufkeys = [ramp(bl + 9, 5, 2), expander(bl + 9, 6)]
         self.keys = {'short': b'key', 'exact': ramp(bl, 7, 1), 'long': expander(bl + 9, 3), 'empty': b'', 'long2': ramp(2 * bl, 9, 4)}
 
     def fresh(self):
         from crysp.hmac import HMAC
-        return {'o': HMAC(H.make(self.a), self.keys['short']), 'key': 'short', 'buf': bytearray(20)}
+        o = HMAC(H.make(self.a), self.keys['short'])
+        o(b'a first MAC under the first key')          # histories start from an object that has already been used
+        return {'o': o, 'key': 'short', 'buf': bytearray(20), 'lbuf': bytearray(H.blocklen(self.a) + 9)}
 
     def canon(self, o):
         from mc.engine import canon as gcanon
-        return (o['key'], gcanon(o['o']), bytes(o['buf']))
+        return (o['key'], gcanon(o['o']), bytes(o['buf']), bytes(o['lbuf']))
 
     def events(self, o):
-        return [('setkey', k) for k in self.keys] + [('mac', 0), ('mac', 1), ('setkey-buf', 0), ('setkey-buf', 1), ('scribble-buf',)]
+        return [('setkey', k) for k in self.keys] + [('mac', 0), ('mac', 1), ('setkey-buf', 0), ('setkey-buf', 1), ('scribble-buf',), ('setkey-long-buf', 0), ('setkey-long-buf', 1), ('setkey-long-bytes', 0)]
 
     def apply(self, o, ev):
         if ev[0] == 'setkey-buf':
@@ -68,9 +71,17 @@ class KeySys(HSystem):
             o['buf'][:] = self.bufkeys[ev[1]]
             o['key'] = ('buf', ev[1])
             return o['o'].setkey(o['buf'])
+        if ev[0] == 'setkey-long-buf':
+            o['lbuf'][:] = self.lbufkeys[ev[1]]
+            o['key'] = ('lbuf', ev[1])
+            return o['o'].setkey(o['lbuf'])
+        if ev[0] == 'setkey-long-bytes':
+            o['key'] = ('lbuf', ev[1])
+            return o['o'].setkey(bytes(self.lbufkeys[ev[1]]))
         if ev[0] == 'scribble-buf':
             # ... or overwrites it without telling the HMAC object: the key in use must not follow
             o['buf'][:] = b'\xee' * len(o['buf'])
+            o['lbuf'][:] = b'\xdd' * len(o['lbuf'])
             return None
         if ev[0] == 'setkey':
             o['key'] = ev[1]
@@ -80,7 +91,7 @@ class KeySys(HSystem):
     def judge(self, ctx, hist, ev, res, o):
         if ev[0] == 'mac':
             m = [b'message', ramp(H.blocklen(self.a) + 3, 3, 3)][ev[1]]
-            ctx.eq('C13/%s/mac-after-setkey-sequence' % self.a, res, ('ok', rfc2104(self.a, self.keys[o['key']] if not isinstance(o['key'], tuple) else self.bufkeys[o['key'][1]], m)))
+            ctx.eq('C13/%s/mac-after-setkey-sequence' % self.a, res, ('ok', rfc2104(self.a, self.keys[o['key']] if not isinstance(o['key'], tuple) else (self.bufkeys if o['key'][0] == 'buf' else self.lbufkeys)[o['key'][1]], m)))
         elif ev[0] != 'scribble-buf':
             ctx.eq('C13/%s/setkey' % self.a, res[0], 'ok')
 
